@@ -240,6 +240,25 @@ def decide(prop, node, sh, context, res, exc, ctx_type=None):
         # decided only when clearly true (sides exactly equal as rationals) or clearly
         # false (sides further apart than 1e-6*scale); chains a = b = c likewise
         t = X.holds(sh, sigma, tolerant=False)
+        if t is None and sh[2][0] != "Equal" and sh[3][0] != "Equal":
+            # one side is a division by zero (NaN by the property's own clause), the other a number
+            # or NaN as well: NaN equals nothing, the sides differ, the equation raises
+            nan_sides = [_first_div0_transparent(sh[i], sigma) for i in (2, 3)]
+            defined = []
+            for i in (2, 3):
+                try:
+                    X.ev(sh[i], sigma)
+                    defined.append(True)
+                except X.Undef:
+                    defined.append(False)
+            if any(nan_sides) and all(n or d for n, d in zip(nan_sides, defined)):
+                rec.arm("eval:equation:nan-side")
+                if not isinstance(exc, ValueError):
+                    bad("eval/equation-false-no-error", "an equation whose sides differ did not raise",
+                        (f"returned {_r(res)}" if exc is None else f"raised {type(exc).__name__}") + " although one side is a division by zero (NaN)")
+                else:
+                    rec.nontrivial(("eval-eq-nan", sh, tuple(sorted(sigma.items()))))
+                return
         if t is None:
             rec.skip("eval: equation undefined or too close to call")
             return
